@@ -110,7 +110,12 @@ type c19sEnv struct {
 	order   []string
 	remotes []net.Conn
 	cleanup func()
+	// incomplete: an event the real code must send did not arrive within the (generous) deadline; the rest
+	// of the case is not executed and nothing further is observed (no observation can be trusted then)
+	incomplete bool
 }
+
+const c19sDeadline = 120 * time.Second
 
 const c19sNS = "verif/c19s"
 
@@ -239,13 +244,25 @@ func (e *c19sEnv) incoming(id core.PeerID) string {
 			return x.peerID == id
 		}
 		return false
-	}, 20*time.Second)
+	}, c19sDeadline)
 	if !ok {
-		panic("harness: the incoming handshake produced no event")
+		e.incomplete = true
+		return "noevent"
 	}
 	ev.apply(e.st)
 	if ce, isConn := ev.(incomingConnEvent); isConn {
 		if ce.c.IsClosed() {
+			// the scheduler closed the conn itself (the dispatcher refused the peer): its connClosedEvent
+			// is on its way; the state is only observed after it has been applied
+			cev, ok := e.loop.take(func(ev event) bool {
+				x, is := ev.(connClosedEvent)
+				return is && x.c == ce.c
+			}, c19sDeadline)
+			if !ok {
+				e.incomplete = true
+				return "noevent"
+			}
+			cev.apply(e.st)
 			return "connrejected"
 		}
 		return "active"
@@ -287,6 +304,9 @@ func c19sExec(tr *verifh.T, c verifh.Case) {
 	tr.Cfg(c.Cfg...)
 	h := e.mi.InfoHash()
 	for _, op := range c.Ops {
+		if e.incomplete {
+			break
+		}
 		if len(op) < 2 || op[0] != "op" {
 			continue
 		}
@@ -315,6 +335,9 @@ func c19sExec(tr *verifh.T, c verifh.Case) {
 			}
 			res := "panic"
 			verifh.Protect(func() { res = e.incoming(id) })
+			if e.incomplete {
+				break
+			}
 			tr.Op(a, append([]string{"res=" + res}, e.obs()...)...)
 		case a[0] == "close" && len(a) == 2:
 			id, ok := e.ids[a[1]]
@@ -341,14 +364,28 @@ func c19sExec(tr *verifh.T, c verifh.Case) {
 				ev, ok := e.loop.take(func(ev event) bool {
 					x, is := ev.(connClosedEvent)
 					return is && x.c == target
-				}, 10*time.Second)
+				}, c19sDeadline)
 				if !ok {
-					res = "noevent"
+					e.incomplete = true
 					return
 				}
 				ev.apply(e.st)
+				// the dispatcher drops the peer on its own goroutine (feed -> removePeer -> PeerRemoved): a
+				// reconnect of the same peer before that is refused by the dispatcher, so wait for it
+				pev, ok := e.loop.take(func(ev event) bool {
+					x, is := ev.(peerRemovedEvent)
+					return is && x.peerID == id
+				}, c19sDeadline)
+				if !ok {
+					e.incomplete = true
+					return
+				}
+				pev.apply(e.st)
 			}); p != "" {
 				res = "panic"
+			}
+			if e.incomplete {
+				break
 			}
 			tr.Op(a, append([]string{"res=" + res}, e.obs()...)...)
 		case a[0] == "tick" && len(a) == 2:
@@ -359,6 +396,12 @@ func c19sExec(tr *verifh.T, c verifh.Case) {
 		case a[0] == "state" && len(a) == 1:
 			tr.Op(a, append([]string{"res=ok"}, e.obs()...)...)
 		}
+	}
+	if e.incomplete {
+		tr.Comment("case abandoned: an expected scheduler event did not arrive within the deadline")
+		tr.Count("cases_incomplete", 1)
+		tr.End()
+		return
 	}
 	tr.Op([]string{"state"}, append([]string{"res=ok"}, e.obs()...)...)
 	tr.Op([]string{"done"}, "ok")
